@@ -55,6 +55,8 @@ type replayC38 struct {
 	Pk    string `json:"pk,omitempty"`
 	Proof string `json:"proof,omitempty"`
 	Note  string `json:"note,omitempty"`
+	Long  int    `json:"long,omitempty"` // long-history case: number of distinct keys
+	Tag   uint64 `json:"tag,omitempty"`
 }
 
 // class of a VerifyAndHash result
@@ -535,6 +537,10 @@ func run(c *vh.Ctx) error {
 		if err := json.Unmarshal(b, &rp); err != nil {
 			return err
 		}
+		if rp.Replay.Long > 0 {
+			m.longHistory(rp.Replay.Long, rp.Replay.Tag, true)
+			return nil
+		}
 		m.one("replay", vh.UnHex(rp.Replay.Seed), vh.UnHex(rp.Replay.Alpha), true, true)
 		return nil
 	}
@@ -556,6 +562,8 @@ func run(c *vh.Ctx) error {
 		}
 	}
 	m.recheckHeld("the whole run")
+	// one process, many distinct keys, then the early ones again (stateless expectation)
+	m.longHistory(c.Pick(5000, 70000), uint64(c.Seed), true)
 	// malformed secret keys
 	for _, l := range []int{0, 31, 33, 64} {
 		if _, _, err := vrf.Prove(make([]byte, l), []byte("x")); err == nil {
